@@ -405,7 +405,9 @@ def isLogOf (n : Name) (hash : String) : Prim → Bool
   | _ => false
 def isRenWaitFinal : Prim → Bool | .renWaitFinal .. => true | _ => false
 def isCacheFinalized : Prim → Bool | .cacheSet _ e => e.state == .finalized | _ => false
-def isRmCmp : Prim → Bool | .rmCmp _ => true | _ => false
+/-- a removal of a companion, unconditional (`rmCmp`) or "only if it still records this
+    version" (`rmCmpIf`) -/
+def isRmCmp : Prim → Bool | .rmCmp _ => true | .rmCmpIf .. => true | _ => false
 def isWriteIno : Prim → Bool | .writeIno .. => true | _ => false
 def isCmpTmp : Prim → Bool | .cmpTmp .. => true | _ => false
 def isCmpCommit : Prim → Bool | .cmpCommit .. => true | _ => false
@@ -428,12 +430,15 @@ theorem toCache_no (q : Prim → Bool) (hq : ∀ p, q p = true → p.durable = t
 
 /-- `log_before_move` (C06): in `finalize` (putFileAway) the receive-log record of this name and
     hash is appended before the file is moved; only `<n>.wait` is moved, to its target; the
-    state becomes *finalized* only after the move; the companion is removed after that. -/
+    state becomes *finalized* only after the move; the companion is removed after that, and
+    the only removal of a companion in `finalize` is the conditional `rmCmpIf n e.hash` (the
+    companion goes only if it still describes the version being put away). -/
 theorem log_before_move (s : State) (n : Name) (e : Entry) (now : Int) :
     Precedes (isLogOf n e.hash) isRenWaitFinal (finalizeEffects s n e now) ∧
     (∀ m t, Prim.renWaitFinal m t ∈ finalizeEffects s n e now → m = n ∧ t = targetOf n e.renamed) ∧
     Precedes isRenWaitFinal isCacheFinalized (finalizeEffects s n e now) ∧
-    Precedes isCacheFinalized isRmCmp (finalizeEffects s n e now) := by
+    Precedes isCacheFinalized isRmCmp (finalizeEffects s n e now) ∧
+    (∀ p ∈ finalizeEffects s n e now, isRmCmp p = true → p = Prim.rmCmpIf n e.hash) := by
   simp only [Precedes_iff]
   unfold finalizeEffects
   by_cases hcond : stateOf s.mem n ≠ some .validated ∨ (s.mem.cache n).map (·.hash) ≠ some e.hash
@@ -444,7 +449,7 @@ theorem log_before_move (s : State) (n : Name) (e : Entry) (now : Int) :
     | none => simp [precedesB, isLogOf, isRenWaitFinal, isCacheFinalized, isRmCmp]
     | some i =>
       simp only [List.cons_append, List.nil_append, List.append_assoc]
-      refine ⟨by simp [precedesB, isLogOf, isRenWaitFinal], ?_, by simp [precedesB, isRenWaitFinal, isCacheFinalized], ?_⟩
+      refine ⟨by simp [precedesB, isLogOf, isRenWaitFinal], ?_, by simp [precedesB, isRenWaitFinal, isCacheFinalized], ?_, ?_⟩
       · intro m t hm
         simp only [List.mem_cons, List.mem_append, List.mem_map, reduceCtorEq, false_or,
           Prim.renWaitFinal.injEq, List.not_mem_nil, or_false] at hm
@@ -460,6 +465,21 @@ theorem log_before_move (s : State) (n : Name) (e : Entry) (now : Int) :
         rw [precedesB_append, toCache_finalized_any]
         rw [precedesB_of_none _ _ _ (toCache_no isRmCmp (by intro p hp; cases p <;> simp_all [isRmCmp, Prim.durable]) _ _ _ _ _)]
         rfl
+      · intro p hp hrm
+        simp only [List.mem_cons, List.mem_append, List.mem_map, List.not_mem_nil, or_false] at hp
+        rcases hp with hp | hp | hp | hp | hp | hp | hp | hp | hp
+        · subst hp; simp [isRmCmp] at hrm
+        · subst hp; simp [isRmCmp] at hrm
+        · subst hp; simp [isRmCmp] at hrm
+        · subst hp; simp [isRmCmp] at hrm
+        · have := toCache_no isRmCmp (by intro p hp; cases p <;> simp_all [isRmCmp, Prim.durable])
+            s.mem n { e with logged := some now } .finalized now
+          simp only [List.all_eq_true, Bool.not_eq_true'] at this
+          rw [this _ hp] at hrm; cases hrm
+        · exact hp
+        · subst hp; simp [isRmCmp] at hrm
+        · obtain ⟨w, _, rfl⟩ := hp; simp [isRmCmp] at hrm
+        · subst hp; simp [isRmCmp] at hrm
 
 /-- `data_before_record` (C06): in a reception the bytes are written before the companion's
     temporary file is written, which precedes its atomic rename, which precedes the rename of
@@ -478,8 +498,12 @@ theorem data_before_record (s : State) (i beg : Nat) (data : Body) (now now' : I
 example : (recordEffects (runEvs Hs init (goodRun.take 4)) "a" metaA 0 2 0).any isRenPartFull = true := by
   decide
 
-/-- `log_before_move` is not vacuous: the finalize of "a" in `goodRun` does move the file -/
+/-- `log_before_move` is not vacuous: the finalize of "a" in `goodRun` does move the file and
+    does (conditionally) remove the companion -/
 example : (finhEffects (runEvs Hs init (goodRun.take 6)) "a" 0).any isRenWaitFinal = true := by
+  decide
+
+example : (finhEffects (runEvs Hs init (goodRun.take 6)) "a" 0).any isRmCmp = true := by
   decide
 
 /-! ### `validate_before_wait`: `<n>.full → <n>.wait` only in `process`, after the hash check -/
